@@ -2,7 +2,7 @@
    encode the observation.  [run] is what the extracted CLI calls; [judge] applies the
    executable property predicates of Spec.v to an observation made on the IMPLEMENTATION. *)
 From Coq Require Import List Ascii String ZArith Bool.
-From Model Require Import Bytes Wire Glob StaticRoute RoundRobin Pins Resolver SendFault Codec Spec SpecC14.
+From Model Require Import Bytes Wire Glob StaticRoute RoundRobin Pins Resolver SendFault Codec Message Spec SpecC14 SpecC16.
 Import ListNotations.
 
 Definition decode_error : list bytes := [s2b "decode-error"].
@@ -152,6 +152,24 @@ Definition run_sendfault (args : list bytes) : list bytes :=
   | None => decode_error
   end.
 
+(* ---- dialog: n { message-bytes + abstract reading }..  -> per message: ok id | err ---- *)
+Definition d_dialog_case : dec (list (bytes * c16_msg)) := d_list (d_pair d_bytes d_c16_msg).
+Definition dialog_of_bytes (b : bytes) : list bytes :=
+  match parse_message b with
+  | Ok (m, _) => match get_dialog m with
+                 | Ok (_, d) => [s2b "ok"; d]
+                 | Err => [s2b "err"]
+                 | Panic => [s2b "panic"]
+                 end
+  | Err => [s2b "parse-err"]
+  | Panic => [s2b "panic"]
+  end.
+Definition run_dialog (args : list bytes) : list bytes :=
+  match run_dec d_dialog_case args with
+  | Some l => flat_map (fun '(b, _) => dialog_of_bytes b) l
+  | None => decode_error
+  end.
+
 Definition run (comp : bytes) (args : list bytes) : list bytes :=
   if beq comp (s2b "findroute") then run_findroute args
   else if beq comp (s2b "rr") then run_rr args
@@ -160,6 +178,7 @@ Definition run (comp : bytes) (args : list bytes) : list bytes :=
   else if beq comp (s2b "sendfault") then run_sendfault args
   else if beq comp (s2b "codec") then run_codec args
   else if beq comp (s2b "codecgen") then run_codecgen args
+  else if beq comp (s2b "dialog") then run_dialog args
   else [s2b "unknown-component"].
 
 (* codec: kind text nexpected expected.. then the observation *)
@@ -174,7 +193,24 @@ Definition judge_codec (args : list bytes) : list bytes :=
   | None => decode_error
   end.
 
+Definition d_oid : dec (option bytes) :=
+  dlet t := d_bytes in if beq t (s2b "ok") then (dlet d := d_bytes in d_ret (Some d)) else d_ret None.
+Definition judge_dialog (args : list bytes) : list bytes :=
+  match d_dialog_case args with
+  | Some (l, obs) =>
+      match run_dec (d_rep d_oid (List.length l)) obs with
+      | Some ids =>
+          match judge_C16 (combine (map snd l) ids) with
+          | None => [s2b "ok"]
+          | Some (i, j, why) => [s2b "bad"; e_nat i; e_nat j; e_nat why]
+          end
+      | None => decode_error
+      end
+  | None => decode_error
+  end.
+
 Definition judge (comp : bytes) (args : list bytes) : list bytes :=
   if beq comp (s2b "findroute") then judge_findroute args
   else if beq comp (s2b "codec") then judge_codec args
+  else if beq comp (s2b "dialog") then judge_dialog args
   else [s2b "unknown-component"].
